@@ -20,9 +20,11 @@ PID = 'C08'
 LEVEL = 'exploration'
 BUDGET_S = {'quick': 50, 'thorough': 700}
 FLOORS = {'quick': {'schedules': 1500, 'contended_schedules': 900, 'responses_judged': 5000, 'sweeps': 900,
-                    'single_fetch_checks': 2000, 'cross_block_probes': 150, 'stress_rounds': 6},
+                    'single_fetch_checks': 2000, 'cross_block_probes': 60, 'stress_rounds': 6, 'fault_runs_three_or_more_on_one_meta_tile': 90,
+                    'partial_meta_runs': 80},
           'thorough': {'schedules': 40000, 'contended_schedules': 25000, 'responses_judged': 150000, 'sweeps': 40000,
-                       'single_fetch_checks': 60000, 'cross_block_probes': 4000, 'stress_rounds': 120}}
+                       'single_fetch_checks': 60000, 'cross_block_probes': 1500, 'stress_rounds': 120,
+                       'fault_runs_three_or_more_on_one_meta_tile': 2000, 'partial_meta_runs': 1800}}
 RULE = ("case = one forced schedule of 2-6 clients requesting the same tile / tiles of the same meta tile / tiles of "
         "two different meta tiles (TMS, tile_manager batches, WMS GetMap) on an empty cache, for one configuration "
         "(backend file|sqlite|compact v2, meta 1x1..3x2, buffer, WMS or bulk tile source). evaluations = responses "
@@ -88,11 +90,13 @@ def gen_conf(rng):
     if src_kind == 'tile':
         cache['bulk_meta_tiles'] = rng.random() < 0.5
         cache['meta_buffer'] = 0
-    backend = rng.choice(['file', 'file', 'sqlite', 'compact', 'compact'])
+    backend = rng.choice(['file', 'file', 'sqlite', 'compact', 'compact', 'compact1'])
     if backend == 'sqlite':
         cache['cache'] = {'type': 'sqlite'}
     elif backend == 'compact':
         cache['cache'] = {'type': 'compact', 'version': 2}
+    elif backend == 'compact1':
+        cache['cache'] = {'type': 'compact', 'version': 1}
     else:
         cache['cache'] = {'type': 'file', 'directory_layout': 'tc'}
     return {'grid': grid, 'cache': cache, 'src_kind': src_kind, 'lclass': 'f2', 'bclass': 'regional', 'backend': backend}
@@ -123,11 +127,15 @@ def plan_clients(rng, spec, grid, z):
     else:
         b, blkB, tilesB = a, blkA, tilesA
     k = rng.randint(2, 6)
-    shape = rng.choice(['same_tile', 'same_meta', 'two_metas', 'two_metas'])
+    shape = rng.choice(['same_tile', 'same_meta', 'two_metas', 'two_metas', 'partial_meta'])
     clients = []
     for i in range(k):
         if shape == 'same_tile':
             c = a
+        elif shape == 'partial_meta':
+            # tilesA[0] stays cached from an earlier request, the rest of the meta tile was removed (expiry, cleanup,
+            # crash in the middle of a bulk store): everybody wants the removed tiles
+            c = rng.choice(tilesA[1:] or tilesA)
         elif shape == 'same_meta':
             c = rng.choice(tilesA)
         else:
@@ -138,11 +146,13 @@ def plan_clients(rng, spec, grid, z):
             clients.append(('batch', rng.sample(tiles, rng.randint(1, len(tiles)))))
         else:
             clients.append(('tms', c))
+    if shape == 'partial_meta' and len(tilesA) < 2:
+        shape = 'same_tile'
     return clients, shape
 
 
 class OneRun(object):
-    def __init__(self, run, spec, clients, chooser, d, hold=None, fault=None):
+    def __init__(self, run, spec, clients, chooser, d, hold=None, fault=None, partial=False):
         self.run = run
         self.spec = spec
         self.clients = clients
@@ -150,6 +160,7 @@ class OneRun(object):
         self.d = d
         self.hold = hold          # (holder client index) : held at upstream-enter until all others are done
         self.fault = fault        # fail the first upstream call
+        self.partial = partial
         self.problems = []
         self.responses = {}
         self.active = set()
@@ -193,6 +204,17 @@ class OneRun(object):
         self.tiles_path = self.tms_path.replace('/tms/1.0.0/', '/tiles/')
         self.tm = tm = sc.tile_manager('c')
         self.proxy = CacheProxy(tm.cache)
+        if self.partial:
+            # earlier life of the cache: the meta tile of the first client was created, then all but one of its tiles
+            # disappeared again
+            c0 = self.clients[0][1] if self.clients[0][0] == 'tms' else self.clients[0][1][0]
+            blk, tiles = meta_block(self.spec, self.grid, c0)
+            from mapproxy.cache.tile import Tile
+            with tm.session():
+                tm.load_tile_coords([tiles[0]])
+            for c in tiles[1:]:
+                tm.cache.remove_tile(Tile(c))
+            tm.cleanup()
         tm.cache = self.proxy
         up.reset_log()
         nfault = [1 if self.fault else 0]
@@ -339,7 +361,8 @@ class OneRun(object):
                 per_blk[('tile',) + tuple(call.extra['tile'])] = per_blk.get(('tile',) + tuple(call.extra['tile']), 0) + 1
         for blk, n in per_blk.items():
             run.hit('single_fetch_checks')
-            limit = 1 + (1 if self.fault else 0)
+            # only answered upstream requests are counted here (the injected failure is not), so one per meta tile
+            limit = 1
             if n > limit:
                 self.problems.append(('multiple_fetches', '%d upstream requests for %r (clients %r)' % (n, blk, self.clients)))
         if not self.fault and spec['src_kind'] == 'wms':
@@ -363,6 +386,12 @@ def record(run, case, one, spec, shape):
         run.hit('contended_schedules')
     if one.hold is not None:
         run.hit('cross_block_probes')
+    if one.fault:
+        run.hit('fault_runs')
+        if shape in ('same_tile', 'same_meta') and len(one.clients) >= 3:
+            run.hit('fault_runs_three_or_more_on_one_meta_tile')
+    if one.partial:
+        run.hit('partial_meta_runs')
     if one.outcome in ('steplimit', 'watchdog'):
         run.dc('run_cut_by_' + one.outcome)
     cfg = (spec['backend'], tuple(spec['cache']['meta_size']), spec['cache']['meta_buffer'], spec['src_kind'],
@@ -377,7 +406,7 @@ def record(run, case, one, spec, shape):
         mech = {'problem': kind, 'backend': spec['backend'], 'src': spec['src_kind'], 'meta': spec['cache']['meta_size'],
                 'shape': shape, 'hold': one.hold is not None, 'fault': bool(one.fault)}
         rc = dict(case, spec=spec, clients=one.clients, replay_trace=[t[0] for t in one.sched.trace],
-                  hold=one.hold, fault=one.fault)
+                  hold=one.hold, fault=one.fault, partial=one.partial)
         run.violation(mech, rc, '%s: %s | clients=%r | trace tail=%r' % (kind, detail, one.clients, one.sched.trace[-40:]))
 
 
@@ -406,7 +435,7 @@ def run_case(run, case):
                 ch = sched.ReplayChooser(case['replay_trace'])
                 hold, fault = case.get('hold'), case.get('fault')
             else:
-                st = r % 3
+                st = srng.randrange(3)   # independent of the fault/hold pattern, which also depends on r
                 ch = sched.RandomChooser(srng) if st == 0 else (
                     sched.RandomChooser(srng, stickiness=0.7) if st == 1 else
                     sched.PCTChooser(srng, depth=srng.randint(1, 4), est_steps=80))
@@ -414,9 +443,10 @@ def run_case(run, case):
                 fault = None
                 if shape == 'two_metas' and r % 4 == 3:
                     hold = 0
-                elif r % 9 == 8:
+                elif r % 9 == 8 or (shape in ('same_tile', 'same_meta') and len(clients) >= 3 and r % 3 == 2):
                     fault = True
-            one = OneRun(run, spec, clients, ch, d, hold=hold, fault=fault)
+            one = OneRun(run, spec, clients, ch, d, hold=hold, fault=fault,
+                         partial=(shape == 'partial_meta' or case.get('partial')))
             one.execute()
             record(run, case, one, spec, shape)
             if case['i'] == 0 and r == 0:
